@@ -154,6 +154,17 @@ func GenSpec(t *rapid.T) *Spec {
 		}
 		s.NodeRoles = append(s.NodeRoles, roles)
 	}
+	if s.WithRuntime && rapid.IntRange(0, 2).Draw(t, "rtUpgrade") == 0 {
+		s.RtUpgradeAt = uint64(rapid.IntRange(1, 4).Draw(t, "rtUpgradeAt"))
+		s.RtNewestFirst = rapid.Bool().Draw(t, "rtNewestFirst")
+		for i := 0; i < s.NEntities; i++ {
+			var vs []int
+			for j := 0; j < s.NodesPerEntity[i]; j++ {
+				vs = append(vs, rapid.SampledFrom([]int{1, 1, 2, 2, 3}).Draw(t, "nodeRtVer"))
+			}
+			s.NodeRtVer = append(s.NodeRtVer, vs)
+		}
+	}
 	s.WithVault = rapid.IntRange(0, 2).Draw(t, "vault") == 0
 	if s.WithVault {
 		for i, n := 0, rapid.IntRange(0, 2).Draw(t, "genesisVaults"); i < n; i++ {
